@@ -121,7 +121,7 @@ class Model:
         """(verdict, number of leading elements applied) on the current model state, without
         changing it.  Bulk ops are a left fold that stops at the first failing element."""
         k = op[0]
-        if k in ('node', 'nodes'):
+        if k in ('node', 'nodes', 'uattr', 'uattrs', 'observe', 'clear', 'clear_edges'):
             return 'ok', 0
         els = self.elements(op)
         if k == 'bulk' and op[4] is None:
@@ -151,6 +151,23 @@ class Model:
                 n = node_of(c, i)
                 self._touch(n)
                 self.attrs[n].update(copy.deepcopy(ATTRS[op[2]]))
+            return
+        if k == 'observe':
+            return
+        if k in ('clear', 'clear_edges'):
+            if outcome == 'ok':
+                self.pres = {}
+                self.closed = {}
+                self.accepted = set()
+                if k == 'clear':
+                    self.nodes = []
+                    self.attrs = {}
+            return
+        if k in ('uattr', 'uattrs'):
+            for i in ([op[1]] if k == 'uattr' else op[1]):
+                n = node_of(c, i)
+                if n in self.attrs:
+                    self.attrs[n] = copy.deepcopy(ATTRS[op[2]])     # update_node_attr replaces the dict
             return
         els = self.elements(op)
         if k == 'bulk' and op[4] is None:
@@ -191,7 +208,7 @@ class Model:
         return self.key(u, v) in self.pres
 
     def canon(self):
-        return (tuple(map(repr, self.nodes)),
+        return (tuple((repr(n), repr(sorted(self.attrs.get(n, {}).items(), key=repr))) for n in self.nodes),
                 tuple(sorted((repr(k), tuple(sorted(v))) for k, v in self.pres.items())),
                 tuple(sorted((repr(k), tuple(sorted(v.items()))) for k, v in self.closed.items())),
                 tuple(sorted(self.accepted)))
